@@ -12,13 +12,14 @@ func init() {
 		ID:         "C14",
 		Level:      "other",
 		Technique:  "ownership rules: every store of byte-slice data into a message made by a decoder or by merge/clone stores a fresh copy (idiom recognition on all sinks), who-may-set rule on the alias flag, copy-before-retain dominance for the lazy buffer, use-only-as-argument rule for the reader's peeked buffer (static)",
-		Explain:    "Decides structural necessary conditions of `decoded and cloned messages never alias caller memory`: (1) every bytes-typed store performed by a fast-path unmarshal function (accessors Bytes/BytesSlice, ValueOfBytes results, list appends) and by the reflection decoder's BytesKind branches stores append(emptyBuf[:], v...) — a fresh copy of the consumed input — never the input slice itself; (2) unknown-field bytes are only appended to the message's own slice, never assigned from a slice of the input; (3) the lazy decoder retains the input buffer only after copying it unless the alias flag is set, and the alias flag is set only there (after the copy) and in the options used to decode from the message-owned lazy buffer; (4) merge and clone copy byte strings and pointer scalars and deep-copy list/map message elements (R-MERGE-CLASS, R-MERGE-REFLECT); (5) protodelim hands the reader's peeked buffer only to Unmarshal and does not retain it.",
+		Explain:    "Decides structural necessary conditions of `decoded and cloned messages never alias caller memory`: (1) every bytes-typed store performed by a fast-path unmarshal function (accessors Bytes/BytesSlice, ValueOfBytes results, list appends) and by the reflection decoder's BytesKind branches stores append(emptyBuf[:], v...) — a fresh copy of the consumed input — never the input slice itself; (2) unknown-field bytes are only appended to the message's own slice, never assigned from a slice of the input; (3) the lazy decoder retains the input buffer only after copying it unless the alias flag is set, and the alias flag is set only there (after the copy) and in the options used to decode from the message-owned lazy buffer; (4) merge and clone copy byte strings and pointer scalars and deep-copy list/map message elements (R-MERGE-CLASS, R-MERGE-REFLECT); (5) protodelim hands the reader's peeked buffer only to Unmarshal and does not retain it; (6) the JSON and text string scanners, which unescape into a slice of their input, clip that slice's capacity so that appending never writes into the caller's input.",
 		NotCovered: "aliasing introduced by user-provided Methods or by reflection Set calls made by the caller; string data (immutable, conversion copies by language semantics); sharing of immutable descriptor/type data.",
-		Quick:      all("./internal/impl", "./proto", "./encoding/protodelim"),
+		Quick:      all("./internal/impl", "./proto", "./encoding/protodelim", "./internal/encoding/json", "./internal/encoding/text"),
 		Thorough:   all("./..."),
 		Run: func(c *Ctx) {
 			c.ruleBytesCopy("R-BYTES-COPY")
 			c.ruleAliasFlag("R-ALIAS-FLAG")
+			c.ruleInputNotMutated("R-INPUT-NOT-MUTATED", []string{"internal/encoding/json.(*Decoder).parseString", "internal/encoding/text.(*Decoder).parseString"})
 			c.ruleMergeClass("R-MERGE-CLASS", 60)
 			c.ruleMergeReflect("R-MERGE-REFLECT")
 		},
@@ -338,6 +339,52 @@ func (c *Ctx) ruleAliasFlag(rule string) {
 					}
 				}
 			}
+		}
+	}
+}
+
+// R-INPUT-NOT-MUTATED: a scanner that builds its output by appending to a
+// slice of the input must clip that slice's capacity (three-index slice), or
+// the append writes into the caller's buffer.
+func (c *Ctx) ruleInputNotMutated(rule string, keys []string) {
+	R, P := c.R, c.P
+	R.Rule(rule, "in the string scanners that unescape into a slice taken from the input (`out := in[:i:i]`), every variable that is the target of `x = append(x, …)` and is initialised from a slice of the input is initialised with a three-index slice whose capacity equals its length, so appending reallocates instead of overwriting the caller's input", len(keys))
+	for _, key := range keys {
+		fi := c.need(rule, key)
+		if fi == nil {
+			continue
+		}
+		info := fi.Info()
+		defs := localDefs(fi.Decl.Body, info)
+		targets := map[types.Object]bool{}
+		walkAll(fi.Decl.Body, func(n ast.Node) bool {
+			if call, ok := n.(*ast.CallExpr); ok {
+				if id, ok := call.Fun.(*ast.Ident); ok && id.Name == "append" && len(call.Args) >= 1 {
+					if o := objOf(info, call.Args[0]); o != nil {
+						targets[o] = true
+					}
+				}
+			}
+			return true
+		})
+		n := 0
+		for o := range targets {
+			if !isByteSlice(o.Type()) {
+				continue
+			}
+			for _, d := range defs[o] {
+				se, ok := unparen(d.rhs).(*ast.SliceExpr)
+				if !ok {
+					continue
+				}
+				// slice of a parameter-derived buffer?
+				n++
+				good := se.Slice3 && se.Max != nil && se.High != nil && exprStr(se.Max) == exprStr(se.High)
+				R.Check(good, rule, key+" "+o.Name(), P.Pos(se), "capacity clipped (`"+exprStr(se)+"`)", "`"+o.Name()+"` is a slice of the input with spare capacity and is appended to: unescaping overwrites the caller's input buffer in place")
+			}
+		}
+		if n == 0 {
+			R.Unk(rule, key, P.Pos(fi.Decl), "no output slice initialised from the input found: scanner idiom not recognised")
 		}
 	}
 }
